@@ -23,6 +23,7 @@
    Floats are exact rationals; == is equality of rationals. *)
 From Coq Require Import ZArith QArith List Bool.
 From RV Require Import Base.Wire Base.NumM Base.XFloat Gen.C19Motor Host.DCMotor Host.ActuatorsX Proofs.NumMP Proofs.DCMotorP Proofs.ActuatorsXP.
+From RV Require Import Host.DCMotorFloat Proofs.DCMotorFloatP.
 Import ListNotations.
 Local Open Scope Q_scope.
 
@@ -462,3 +463,113 @@ Example C19_motor_history_sleep_nonvacuous :
   sleeps (mtrace ops m_init) = repeat (100 / 20) 20 ++ [5 # 2].
 Proof. vm_compute. split; reflexivity. Qed.
 Print Assumptions C19_motor_history_sleep_nonvacuous.
+
+(* ====================================================================================
+   ramp() in BINARY64 (Host/DCMotorFloat.v).  The theorems above are about exact rationals, where
+   start + ((target-start)/20)*k never leaves [-1,1]; CPython rounds each of the four operations
+   ([fl] = nearest binary64, ties to even), and then it does: the invariant |speed| <= 1 is an EXACT
+   inequality and holds for the real algorithm because every step goes through set_speed's clamp.
+     ramp_raw_fl start sv k   := fl (start + fl (sv * k))          what ramp() hands to set_speed
+     ramp_sv_fl start target  := fl (fl (target - start) / 20)
+     ramp_point_fl .. k       := clampq of the raw point           what set_speed stores
+     ramp_points_fl s t       := the 20 stored speeds;  ramp_unclamped_end s t := the raw 20th point
+     mstep_fl / mrun_fl / mtrace_fl := the class with this ramp()
+     in_unit_q x              := -1 <= x <= 1;   ramp_tol := 2^-49
+   ==================================================================================== *)
+
+(* every speed the real algorithm stores during and after a ramp is within [-1,1] EXACTLY: for every
+   start, every step value, every step - nothing is assumed about the arithmetic, the clamp does it *)
+Theorem C19_ramp_binary64_stored_in_unit : forall start sv k,
+  -(1) <= ramp_point_fl start sv k /\ ramp_point_fl start sv k <= 1.
+Proof. exact DCMotorFloatP.ramp_point_fl_in_unit. Qed.
+Print Assumptions C19_ramp_binary64_stored_in_unit.
+
+(* ... and the clamp is needed: from the binary64 number -0.95 (inside [-1,1]) a ramp to 1 computes the
+   raw 20th point 1 + 2^-52 > 1; the stored (clamped) one is 1.  A ramp() that writes the raw point
+   (steps bypassing set_speed) breaks |speed| <= 1 on exactly such histories *)
+Theorem C19_ramp_binary64_raw_overshoots_refuted :
+  exists start target,
+    in_unit_q start /\ in_unit_q target /\ is_b64 start = true /\
+    1 < ramp_unclamped_end start target /\
+    ramp_point_fl start (ramp_sv_fl start target) 20 == 1.
+Proof.
+  exists overshoot_start, 1. destruct DCMotorFloatP.ramp_unclamped_overshoots as (A & B & D & _ & E).
+  split; [exact A|]. split; [split; discriminate|]. split; [exact B|]. split; [exact D | exact E].
+Qed.
+Print Assumptions C19_ramp_binary64_raw_overshoots_refuted.
+
+Theorem C19_ramp_binary64_raw_overshoot_value :
+  ramp_unclamped_end overshoot_start 1 == 1 + (1 # 4503599627370496) /\
+  ramp_unclamped_end (fl (95 # 100)) (-(1)) < -(1).
+Proof.
+  split; [exact (proj1 (proj2 (proj2 (proj2 DCMotorFloatP.ramp_unclamped_overshoots)))) |
+          exact (proj1 DCMotorFloatP.ramp_unclamped_undershoots)].
+Qed.
+Print Assumptions C19_ramp_binary64_raw_overshoot_value.
+
+(* one ramp(t, d), numeric t, d >= 0, from any state: succeeds; the speeds it stores are exactly
+   ramp_points_fl (what the correspondence compares bit for bit with the real object), all within
+   [-1,1]; the speed it leaves is the last of them *)
+Theorem C19_ramp_binary64 : forall m t d qt qd,
+  qof t = Some qt -> qof d = Some qd -> 0 <= qd ->
+  mresult (mstep_fl m (MRamp t d)) = Ok MNone /\
+  lvl_speeds (mevents (mstep_fl m (MRamp t d))) = ramp_points_fl (speed m) (clampq qt) /\
+  speed (mstate (mstep_fl m (MRamp t d))) = last (ramp_points_fl (speed m) (clampq qt)) 0 /\
+  Forall in_unit_q (lvl_speeds (mevents (mstep_fl m (MRamp t d)))).
+Proof. exact DCMotorFloatP.ramp_fl_stored. Qed.
+Print Assumptions C19_ramp_binary64.
+
+(* "ends at the clamped target (to float rounding)": within 2^-49 of it - and inside [-1,1] exactly *)
+Theorem C19_ramp_binary64_ends_near_target : forall m t d qt qd,
+  motor_inv m -> qof t = Some qt -> qof d = Some qd -> 0 <= qd ->
+  let m' := mstate (mstep_fl m (MRamp t d)) in
+  clampq qt - ramp_tol <= speed m' /\ speed m' <= clampq qt + ramp_tol /\ in_unit_q (speed m').
+Proof. exact DCMotorFloatP.ramp_fl_ends_near_target. Qed.
+Print Assumptions C19_ramp_binary64_ends_near_target.
+
+(* the raw interpolation is within 2^-49 of the target for every start and target in [-1,1]: the
+   excursion the clamp removes is float rounding, never more *)
+Theorem C19_ramp_binary64_raw_end_near : forall start target,
+  in_unit_q start -> in_unit_q target ->
+  target - ramp_tol <= ramp_unclamped_end start target /\ ramp_unclamped_end start target <= target + ramp_tol.
+Proof. exact DCMotorFloatP.ramp_raw_end_near. Qed.
+Print Assumptions C19_ramp_binary64_raw_end_near.
+
+(* the C19 motor invariant after every history of the class as CPython runs it *)
+Theorem C19_motor_inv_step_binary64 : forall m op, motor_inv m -> motor_inv (mstate (mstep_fl m op)).
+Proof. exact DCMotorFloatP.step_inv_fl. Qed.
+Print Assumptions C19_motor_inv_step_binary64.
+
+Theorem C19_motor_inv_reachable_binary64 : forall i1 i2 en m0 (ops : list mop),
+  motor_ctor i1 i2 en = inl m0 ->
+  motor_inv (mrun_fl ops m0) /\ pins (mrun_fl ops m0) = (i1, i2, en).
+Proof. exact DCMotorFloatP.motor_reachable_inv_fl. Qed.
+Print Assumptions C19_motor_inv_reachable_binary64.
+
+(* every level any history ever drives the motor at (every intermediate ramp step included) has
+   |speed| <= 1, applied = +-speed, drive iff applied <> 0; no sleep is negative *)
+Theorem C19_motor_history_events_binary64 : forall i1 i2 en m0 pre ops,
+  motor_ctor i1 i2 en = inl m0 -> Forall ev_sound (mtrace_fl ops (mrun_fl pre m0)).
+Proof. exact DCMotorFloatP.trace_ev_reachable_fl. Qed.
+Print Assumptions C19_motor_history_events_binary64.
+
+Theorem C19_motor_failed_call_atomic_binary64 : forall m op m' evs k,
+  mstep_fl m op = (m', evs, Raised k) -> m' = m /\ evs = [].
+Proof. exact DCMotorFloatP.motor_failed_atomic_fl. Qed.
+Print Assumptions C19_motor_failed_call_atomic_binary64.
+
+(* non-vacuity: the history of the seeded regression on the model - set_speed(-0.95); ramp(1, 100) -
+   stores exactly 1 (not 1 + 2^-52) and sleeps 20 x 5 *)
+Example C19_ramp_binary64_nonvacuous :
+  let m := mrun_fl [MSetSpeed (PF overshoot_start)] m_init in
+  motor_inv m /\
+  speed (mstate (mstep_fl m (MRamp (PI 1) (PI 100)))) = 1 /\
+  sleeps (mevents (mstep_fl m (MRamp (PI 1) (PI 100)))) = repeat (5 # 1) 20 /\
+  nth 18 (lvl_speeds (mevents (mstep_fl m (MRamp (PI 1) (PI 100))))) 0 = (4064498663701873 # 4503599627370496).
+Proof.
+  cbn zeta. split.
+  - change (motor_inv (mstate (mstep_fl m_init (MSetSpeed (PF overshoot_start))))).
+    apply DCMotorFloatP.step_inv_fl. apply DCMotorP.init_inv.
+  - vm_compute. repeat split.
+Qed.
+Print Assumptions C19_ramp_binary64_nonvacuous.
